@@ -20,7 +20,8 @@ SPEC = {
     # Rust type name -> Lean type (hand model types reused by the generated code)
     "types": {"Tag": "Tag", "Version": "Version", "Error": "Unit", "KmsProtection": "Gen.KmsProtection",
               "Data": "Bytes", "Hash": "Bytes", "Nonce": "Bytes", "MsgVerifier": "Verifier",
-              "MsgSigner": "Signer", "SystemTime": "Rs.Time", "Duration": "Rs.Time", "SocketAddr": "Nat"},
+              "MsgSigner": "Signer", "SystemTime": "Rs.Time", "Duration": "Rs.Time", "SocketAddr": "Nat",
+              "ServerStats": "(List Stats.Event)", "UdpSocket": "Gen.Sock", "Grease": "Gen.GreaseQ"},
     # translated structs (fields of other types must be listed under skip_fields)
     "structs": {
         "RtMessage": {},
@@ -29,7 +30,7 @@ SPEC = {
         "ParsedResponse": {},
         "OnlineKey": {},
         "LongTermKey": {},
-        "Responder": {"skip_fields": ["grease", "thread_id", "long_term_public_key"]},
+        "Responder": {"skip_fields": ["thread_id", "long_term_public_key"]},
     },
     "variants": {
         "Tag::*": "Tag.{v}",
@@ -59,6 +60,15 @@ SPEC = {
         "MsgSigner::public_key_bytes": {"lean": "(Signer.publicKey S {self})"},
         "SystemTime::duration_since": {"lean": "(Rs.durationSinceEpoch {self})", "result": True, "ret_rust": "Duration"},
         "Version::supported_versions_wire": {"lean": "Version.supportedWire"},
+        # environment of send_responses (Rough/Gen/ServerExt.lean): clock reading, socket, fault injector, statistics
+        "SystemTime::now": {"lean": "now"},
+        "Encoding::encode": {"lean": "(hexOf {0})"},
+        "UdpSocket::send_to": {"lean": "(Gen.Sock.sendTo {self} {0} {1}).2", "res": "(Gen.Sock.sendTo {self} {0} {1}).1", "mutates": True, "result": True},
+        "Grease::should_add_error": {"lean": "(Gen.GreaseQ.draw {self}).2", "res": "(Gen.GreaseQ.draw {self}).1", "mutates": True},
+        "Grease::add_errors": {"lean": "(Gen.GreaseQ.addErrors {self} {0})", "monadic": True},
+        "ServerStats::add_classic_response": {"lean": "({self} ++ [({ kind := Stats.Kind.classicResp, addr := {0}, bytes := {1} } : Stats.Event)])", "mutates": True},
+        "ServerStats::add_rfc_response": {"lean": "({self} ++ [({ kind := Stats.Kind.rfcResp, addr := {0}, bytes := {1} } : Stats.Event)])", "mutates": True},
+        "ServerStats::add_failed_send_attempt": {"lean": "({self} ++ [({ kind := Stats.Kind.failedSend, addr := {0}, bytes := 0 } : Stats.Event)])", "mutates": True},
     },
     "modules": {
         "Message": {
@@ -126,8 +136,12 @@ SPEC = {
         "Responder": {
             "file": "src/responder.rs",
             "imports": ["Message", "Merkle", "Online"],
+            "lean_imports": ["Rough.Gen.ServerExt"],
             "params": [("S", "SigScheme"), ("H", "Bytes → Bytes")],
+            # log records are formatted lazily: `debug!` arguments are evaluated iff LOG ≥ 4 (error 1 … trace 5)
+            "log_param": "LOG",
             "functions": {
+                "Responder::send_responses": {"params": [("S", "SigScheme"), ("H", "Bytes → Bytes"), ("LOG", "Nat")], "extra_params": [("now", "Rs.Time")]},
                 "Responder::reset": {},
                 "Responder::is_empty": {},
                 "Responder::add_classic_request": {},
